@@ -202,7 +202,7 @@ def windows(facts, cls, res, morton_nb):
             raise AnalysisBroken("%s: transfer window limits not recognised" % facts.loc(arr))
         # the excluded core: |x| > 1 test
         core = None
-        for x in walk(blk):
+        for x in _with_callees(facts, cls, blk):
             if x.get("k") == "BinaryOperator" and x.get("op") == ">" and "abs" in facts.ntext(kids(x)[0]):
                 core = 2 * int(val(facts, kids(x)[1], {})) + 1
         if core is None:
@@ -220,6 +220,19 @@ def windows(facts, cls, res, morton_nb):
             if not (lo <= -core // 2 - 0 and hi >= core // 2):
                 res.violation(R, tbf.rel(facts.path_of(ln)), fn[0]["qname"], "window[%d,%d]:core" % (lo, hi), ln["l"][1], "window does not contain the excluded core")
     return out
+
+
+def _with_callees(facts, cls, block):
+    """nodes of a block and of the bodies of the class's own member functions it calls (a too-close test extracted into a static helper)"""
+    for x in walk(block):
+        yield x
+        if x.get("k") in ("CallExpr", "CXXMemberCallExpr"):
+            b_ = tbf.call_base(x)
+            if b_ is None or strip(b_).get("k") == "CXXThisExpr":
+                for g in facts.methods_of(cls):
+                    if g["name"] == tbf.callee_name(x) and tbf.body(g) is not None and not g.get("inst") and len(g["params"]) == len(tbf.call_args(x)):
+                        for y in walk(tbf.body(g)):
+                            yield y
 
 
 def virtual_levels(facts, cls):
@@ -622,7 +635,7 @@ def tiling(facts, cls, res, formulas):
         return lo, hi
 
     def core_in(block):
-        for x in walk(block):
+        for x in _with_callees(facts, cls, block):
             if x.get("k") == "BinaryOperator" and x.get("op") == ">" and "abs" in facts.ntext(kids(x)[0]):
                 return int(val(facts, kids(x)[1], {}))
         raise AnalysisBroken("%s::M2L: too-close test not found" % cls)
